@@ -27,7 +27,7 @@ def main(tier):
                                              "tokens_judged": sum(1 for q in toks if q["mit"]), "accepted": sum(1 for q in toks if q["mit"] == "accepted"),
                                              "also_judged_by_gokrb5_acceptor": len(toks)}
         if mexe and toks and not any(q["mit"] for q in toks):
-            raise vlib.Inconclusive("MIT's acceptor judged no token at all")
+            vlib.spec_validation_problem(run, "MIT's acceptor judged no token at all")
         bad = line_trace(run, wd, "TraceC18", len(lines), timeout=3000)
         authed = sum(1 for x in lines for q in x["reqs"] if q["auth"] and q["accepted"])
         run.extra["calls"] = len(lines)
